@@ -189,5 +189,6 @@ pub fn canary_c11(b: &PackageBuilder, now: Timestamp)
 
 OBLIGATIONS = {'PackageBuilder::c11_mtime': ['C11'], 'PackageBuilder::c11_build_time': ['C11'], 'PackageBuilder::c11_signature_time': ['C11'],
                'Signer::c11_sig_creation_time': ['C11'], 'CpioOwner::c11_cpio_mtime': ['C11'],
-               'payload::Builder::new': ['C11'], 'payload::Builder::mtime': ['C11']}
+               'payload::Builder::new': ['C11'], 'payload::Builder::mtime': ['C11'],
+               'payload::Builder::ino': ['C11'], 'payload::Builder::mode': ['C11'], 'payload::Builder::uid': ['C11'], 'payload::Builder::gid': ['C11'], 'payload::Builder::nlink': ['C11']}
 CANARIES = ['canary_c11']
